@@ -34,6 +34,7 @@ def emit(ctx, wd, maxops):
         ctx.machinery.append("client emission incomplete")
         return None
     text = {json.dumps(j["r"], sort_keys=True): j["text"] for j in basis}
+    emit.big = ([j for j in res.json if j.get("k") == "bigcfg"], [j for j in res.json if j.get("k") == "bigop"])
     return cfg[0], basis, [[{"r": r, "text": text[json.dumps(r, sort_keys=True)]} for r in lst] for lst in lists]
 
 
@@ -91,6 +92,20 @@ def main(ctx):
             if strw and st[2]:
                 st = (st[0], st[1], False)       # fragmented writes need fixed-size elements (documented; C04 excludes strings)
             jobs.append((cfg, mem0, lst, st, PATTERNS[rng.randrange(3)] if len(lst) > 1 else [0], None))
+    # replies larger than one receive buffer (> 4096 octets): many 100-element reads in one bundle
+    bigc, bigops = emit.big
+    if not bigc or len(bigops) < 4:
+        ctx.machinery.append("large-reply operations not emitted")
+        return
+    rd = [j for j in bigops if j["r"]["svc"] == "read" and j["r"]["tag"] == 1]
+    other = [j for j in bigops if j not in rd]
+    for _ in range(6 if ctx.quick else 60):
+        lst = [rng.choice(rd) for _ in range(rng.randint(11, 16))]
+        for o in other:
+            lst.insert(rng.randrange(len(lst) + 1), o)
+        lst = [{"r": j["r"], "text": j["text"]} for j in lst]
+        for st in [(0, 0, False), (3, 0, False), (1, 8000, False), (3, 20000, False), (2, 2000, False)]:
+            jobs.append((bigc[0]["cfg"], bigc[0]["mem0"], lst, st, [0], None))
     lines = core.pmap(clientlib.run_client, jobs, chunksize=16)
     for ln in lines:
         nt = len(ln["ops"]) >= 2 and any(r["svc"] in ("write", "writef") or r["idx"] + r["n"] > 3 for r in ln["ops"]) and (ln["setting"][0] > 0 or ln["setting"][1] > 0)
